@@ -48,6 +48,10 @@ pub trait Engine: Sync {
     fn model_compared(&self, _op: &str) -> bool {
         true
     }
+    /// Custom equivalence between the implementation's and the driver's answer (default: equal).
+    fn model_equiv(&self, _op: &str, impl_line: &str, model_line: &str) -> bool {
+        impl_line == model_line
+    }
     /// Per-case timeout for the implementation worker.
     fn timeout(&self) -> Duration {
         Duration::from_secs(10)
@@ -287,6 +291,12 @@ fn first_diff(
             return Some(i);
         }
         if is_model && !engine.model_compared(&ops[i]) {
+            continue;
+        }
+        if is_model {
+            if !engine.model_equiv(&ops[i], x, y) {
+                return Some(i);
+            }
             continue;
         }
         if x != y {
